@@ -9,7 +9,8 @@
 EXTENDS MonRoute
 
 Init == [i |-> 0, viol |-> {}, R |-> RInit,
-         seenE2e |-> {}]        \* <<origin, e2e>> of requests already answered (a retransmission may be answered 5012: C17)
+         seenE2e |-> {}]        \* <<origin, e2e>> of requests received before (a T-flagged retransmission may be answered 5012; whether
+                                \* it must be - only if the original was answered within the window - is C17's subject, not judged here)
 
 StepN(M, st) ==
   LET M0 == [M EXCEPT !.i = @ + 1]
@@ -43,8 +44,8 @@ StepN(M, st) ==
                    /\ ~\E j \in answers : out[j].m.rc = 5012
                 THEN {"handler_failure_not_answered_5012"} ELSE {}
       sigs == vBase \cup vReq \cup vRaise
-      answered == {<<m.oh, m.e2e>> : j \in {k \in answers : feed /\ m.req}}
+      answered == IF feed THEN {<<st.act.ms[j].oh, st.act.ms[j].e2e>> : j \in {k \in 1..Len(st.act.ms) : st.act.ms[k].req}} ELSE {}
   IN [M0 EXCEPT !.viol = @ \cup {[sig |-> s, at |-> M0.i] : s \in sigs}, !.R = RUpdate(R, st),
-                !.seenE2e = @ \cup (IF feed /\ Len(st.act.ms) = 1 THEN answered ELSE {})]
+                !.seenE2e = @ \cup answered]
 Step(M, s0) == StepN(M, Norm(s0))
 =============================================================================
